@@ -6,7 +6,7 @@ COMMON = os.path.join(os.path.dirname(HERE), "common")
 ASSUMPTIONS = [
     "&str extensionality axiom (axiom_str_ext): equal character sequences are equal &str values for `match`",
     "String::to_string / clone give view-equal strings (vstd specs)",
-    "the extension's health loop calls update_state once per observation (call sites not under contract)",
+    "call sites of update_state (one step per observation, published text == automaton state): proved in unit health_sites",
 ]
 
 
